@@ -32,12 +32,12 @@ mut("bio-complete-any", "lib/src/adfbiodivine.rs",
 mut("reduct-by-true", "lib/src/adf.rs",
     "                            if term.is_truth_value() && !term.is_true() {\n                                self.bdd.restrict(acc, Var(var), false)\n                            } else {\n                                acc\n                            }\n                        });\n                }\n                let grounded_check = self.grounded_internal(&interpr);\n                log::debug!(\n                    \"grounded candidate\\n{:?}\\n{:?}\",\n                    interpretation,\n                    grounded_check\n                );\n                (interpretation, grounded_check)\n            })\n            .filter(|(int, grd)| {\n                int.iter()\n                    .zip(grd.iter())\n                    .all(|(it, gr)| it.compare_inf(gr))\n            })\n            .map(|(int, _grd)| int)\n    }\n\n    /// Computes the stable models.\n    /// Returns a vector",
     "                            if term.is_truth_value() && term.is_true() {\n                                self.bdd.restrict(acc, Var(var), true)\n                            } else {\n                                acc\n                            }\n                        });\n                }\n                let grounded_check = self.grounded_internal(&interpr);\n                log::debug!(\n                    \"grounded candidate\\n{:?}\\n{:?}\",\n                    interpretation,\n                    grounded_check\n                );\n                (interpretation, grounded_check)\n            })\n            .filter(|(int, grd)| {\n                int.iter()\n                    .zip(grd.iter())\n                    .all(|(it, gr)| it.compare_inf(gr))\n            })\n            .map(|(int, _grd)| int)\n    }\n\n    /// Computes the stable models.\n    /// Returns a vector", ["C03"])
-mut("rewrite-imp-for-iff", "lib/src/adfbiodivine.rs",
+mut("rewrite-and-for-iff", "lib/src/adfbiodivine.rs",
     "                acc.and(\n                    &formula.iff(",
-    "                acc.and(\n                    &formula.imp(", ["C03"])
-mut("prefilter-any", "lib/src/adf.rs",
-    "                if interpretation.iter().enumerate().all(|(ac_idx, it)| {",
-    "                if interpretation.iter().enumerate().any(|(ac_idx, it)| {", ["C03"])
+    "                acc.and(\n                    &formula.and(", ["C03"])
+mut("prefilter-sentinel-passes", "lib/src/adf.rs",
+    "                    (vec![Term::BOT], vec![Term::TOP])",
+    "                    (vec![Term::BOT], vec![Term::BOT])", ["C03"])
 # ---------------------------------------------------------------- C04
 mut("revert-D1", "lib/src/adf.rs",
     "                    Ok::<(), ()>(())\n                });",
@@ -51,9 +51,9 @@ mut("c04-swap-neg-pos", "lib/src/adf.rs",
 # ---------------------------------------------------------------- C05
 mut("revert-D2", "lib/src/adf/heuristics.rs",
     "Var::from(possible[position].0)", "Var::from(position)", ["C05"])
-mut("ng-no-model-nogood", "lib/src/adf.rs",
-    "                    // stable model found\n                    stack.push((false, cur_interpr.as_slice().into()));",
-    "                    // stable model found", ["C05"])
+mut("ng-never-learn-choice", "lib/src/adf.rs",
+    "                    ng_store.add_ng(ng);\n",
+    "                    if !choice { ng_store.add_ng(ng); }\n", ["C05"])
 mut("ng-keep-sender-clone", "lib/src/adf.rs",
     "        let grounded = self.grounded();\n        self.nogood_internal(\n            &grounded,\n            heuristic.get_heuristic(),\n            Self::stability_check,\n            sender,\n        );",
     "        let grounded = self.grounded();\n        std::mem::forget(sender.clone());\n        self.nogood_internal(\n            &grounded,\n            heuristic.get_heuristic(),\n            Self::stability_check,\n            sender,\n        );", ["C05"])
@@ -82,6 +82,129 @@ mut("ite-cache-collision", "lib/src/obdd.rs",
 mut("from-nodes-raw-push", "lib/src/obdd.rs",
     "        for node in nodes {\n            bdd.node(node.var(), node.lo(), node.hi());\n        }",
     "        for node in nodes {\n            if node.var().value() == 1 { bdd.nodes.push(node); } else {\n            bdd.node(node.var(), node.lo(), node.hi()); }\n        }", ["C06", "C14"])
+
+# ---------------------------------------------------------------- C08
+mut("parser-swap-imp-iff", "lib/src/parser.rs",
+    "            .map(|(input, (f1, f2))| (input, Formula::Imp(Box::new(f1), Box::new(f2))))",
+    "            .map(|(input, (f1, f2))| (input, Formula::Iff(Box::new(f1), Box::new(f2))))", ["C08"])
+mut("parser-atomic-before-binary", "lib/src/parser.rs",
+    "            AdfParser::constant,\n            AdfParser::binary_op,\n            AdfParser::unary_op,\n            AdfParser::atomic_term,",
+    "            AdfParser::constant,\n            AdfParser::atomic_term,\n            AdfParser::binary_op,\n            AdfParser::unary_op,", ["C08"])
+mut("parser-no-all-consuming", "lib/src/parser.rs",
+    "                all_consuming(many1(alt((self.parse_statement(), self.parse_ac())))),",
+    "                many1(alt((self.parse_statement(), self.parse_ac()))),", ["C08"])
+mut("parser-optional-dot", "lib/src/parser.rs",
+    "                terminated(AdfParser::statement, terminated(tag(\".\"), multispace0))(input)?;",
+    "                terminated(AdfParser::statement, terminated(nom::combinator::opt(tag(\".\")), multispace0))(input)?;", ["C08"])
+# ---------------------------------------------------------------- C09
+mut("frombio-swap-lo-hi", "lib/src/adf.rs",
+    "                                term_vec[node_elements[1]\n                                    .parse::<usize>()\n                                    .expect(\"Termpos should be a valid number\")],\n                                term_vec[node_elements[2]",
+    "                                term_vec[node_elements[2]\n                                    .parse::<usize>()\n                                    .expect(\"Termpos should be a valid number\")],\n                                term_vec[node_elements[1]", ["C09"])
+mut("compile-xor-as-iff", "lib/src/adf.rs",
+    "                self.bdd.xor(t1, t2)", "                self.bdd.iff(t1, t2)", ["C09"])
+# ---------------------------------------------------------------- C10
+mut("varsort-no-reindex", "lib/src/parser.rs",
+    "            .sort_unstable();\n        self.regenerate_indizes();",
+    "            .sort_unstable();", ["C10"])
+mut("formula-order-by-insertion", "lib/src/parser.rs",
+    "            .map(|name| {\n                *self\n                    .dict",
+    "            .enumerate()\n            .map(|(pos, name)| {\n                if pos % 2 == 1 { return pos; }\n                *self\n                    .dict", ["C10"])
+# ---------------------------------------------------------------- C11
+mut("stable-mutates-ac", "lib/src/adf.rs",
+    "        let grounded = self.grounded();\n        TwoValuedInterpretationsIterator::new(&grounded)\n            .map(|interpretation| {\n                let mut interpr = self.ac.clone();",
+    "        let grounded = self.grounded();\n        self.ac = grounded.clone();\n        TwoValuedInterpretationsIterator::new(&grounded)\n            .map(|interpretation| {\n                let mut interpr = self.ac.clone();", ["C11"])
+mut("seed-ignored", "lib/src/adf.rs",
+    "        self.rng = RefCell::new(StdRng::from_seed(seed))",
+    "        let _ = seed;\n        self.rng = Adf::default_rng()", ["C11"])
+# ---------------------------------------------------------------- C12 / C13
+mut("revert-D3", "lib/src/obdd.rs",
+    "                    1 + self\n                        .max_depth(self.nodes[term.0].hi())",
+    "                    self\n                        .max_depth(self.nodes[term.0].hi())", ["C12"])
+mut("novarlist-restrict-early", "lib/src/obdd.rs",
+    "            if node.var() > var || node.var() >= Var::BOT {\n                tree",
+    "            if node.var() >= var || node.var() >= Var::BOT {\n                tree", ["C12", "C07"])
+mut("revert-D4", "lib/src/datatypes/bdd.rs",
+    "        self.models >= self.cmodels\n", "        self.models >= self.minimum()\n", ["C13"])
+mut("paths-multiplied", "lib/src/obdd.rs",
+    "                                    lo_paths.cmodels + hi_paths.cmodels,\n                                    lo_paths.models + hi_paths.models,\n                                )\n                                    .into(),\n                                std::cmp::max(lodepth, hidepth) + 1,\n                            ),\n                        );",
+    "                                    lo_paths.cmodels + hi_paths.cmodels,\n                                    lo_paths.models * hi_paths.models.max(1),\n                                )\n                                    .into(),\n                                std::cmp::max(lodepth, hidepth) + 1,\n                            ),\n                        );", ["C13"])
+mut("cubes-ignore-goalvar", "lib/src/obdd.rs",
+    "        if (goal_var != var) || !goal {", "        if true {", ["C13", "C04"])
+# ---------------------------------------------------------------- C14
+mut("fix-import-no-vardeps", "lib/src/obdd.rs",
+    "    pub fn fix_import(&mut self) {\n        self.generate_var_dependencies();",
+    "    pub fn fix_import(&mut self) {", ["C14"])
+mut("export-no-exists-guard", "bin/src/main.rs",
+    "                    if export.exists() {", "                    if false && export.exists() {", ["C14"])
+# ---------------------------------------------------------------- C15
+mut("revert-D5", "bin/src/main.rs",
+    ".map(|v| <adf_bdd::adf::heuristics::Heuristic as std::str::FromStr>::from_str(&v).expect(\"only valid variant names are accepted by the parser\")))]",
+    ")]", ["C15"])
+mut("print-F-for-true", "lib/src/datatypes/adf.rs",
+    "                        write!(f, \"T(\").expect(\"writing Interpretation failed!\");",
+    "                        write!(f, \"F(\").expect(\"writing Interpretation failed!\");", ["C15", "C10"])
+mut("biodivine-arm-drops-com", "bin/src/main.rs",
+    "                if self.complete {\n                    for model in adf.complete() {\n                        print!(\"{}\", adf.print_interpretation(&model));",
+    "                if self.complete && !self.grounded {\n                    for model in adf.complete() {\n                        print!(\"{}\", adf.print_interpretation(&model));", ["C15"])
+mut("parse-error-returns", "bin/src/main.rs",
+    "                        log::error!(\"Error during parsing:\\n{} \\n\\n cannot continue, panic!\", e);\n                        panic!(\"Parsing failed, see log for further details\")\n                    }\n                }\n                if self.sort_lex {",
+    "                        log::error!(\"Error during parsing:\\n{} \\n\\n cannot continue, panic!\", e);\n                        return;\n                    }\n                }\n                if self.sort_lex {", ["C15", "C08"])
+# ---------------------------------------------------------------- C16
+mut("graph-omits-some-hi-edges", "server/src/double_labeled_graph.rs",
+    "            .map(|(i, &node)| (i, node.hi().value()))\n",
+    "            .map(|(i, &node)| (i, node.hi().value()))\n            .filter(|(_, v)| *v != 1)\n", ["C16"])
+mut("ac-strings-off-by-one", "server/src/adf.rs",
+    "                    ac: ac.iter().map(|t| t.0.to_string()).collect(),",
+    "                    ac: ac.iter().map(|t| (t.0 + (t.0 > 1) as usize).to_string()).collect(),", ["C16"])
+mut("parse-error-as-empty", "server/src/adf.rs",
+    "            Ok(Ok(Err(err))) => (\n                SimplifiedAdfOpt::Error(err.to_string()),\n                AcsAndGraphsOpt::Error(err.to_string()),\n            ),",
+    "            Ok(Ok(Err(err))) => (\n                SimplifiedAdfOpt::Error(err.to_string()),\n                AcsAndGraphsOpt::Some(vec![]),\n            ),", ["C16"])
+mut("revert-K3-guard", "server/src/adf.rs",
+    "        if let Ok(mut currently_running) = self.app_state.currently_running.lock() {\n            currently_running.remove(&self.running_info);\n        }",
+    "", ["C16"])
+# ---------------------------------------------------------------- C17
+mut("get-without-username", "server/src/adf.rs",
+    "    let adf_problem = match adf_coll\n        .find_one(doc! { \"name\": &problem_name, \"username\": &username }, None)\n        .await\n    {\n        Err(err) => return HttpResponse::InternalServerError().body(err.to_string()),\n        Ok(None) => {\n            return HttpResponse::NotFound()\n                .body(format!(\"ADF problem with name {problem_name} not found.\"))\n        }\n        Ok(Some(prob)) => prob,\n    };\n\n    HttpResponse::Ok().json(",
+    "    let adf_problem = match adf_coll\n        .find_one(doc! { \"name\": &problem_name }, None)\n        .await\n    {\n        Err(err) => return HttpResponse::InternalServerError().body(err.to_string()),\n        Ok(None) => {\n            return HttpResponse::NotFound()\n                .body(format!(\"ADF problem with name {problem_name} not found.\"))\n        }\n        Ok(Some(prob)) => prob,\n    };\n\n    HttpResponse::Ok().json(", ["C17"])
+mut("delete-without-username", "server/src/adf.rs",
+    "        .delete_one(doc! { \"name\": &problem_name, \"username\": &username }, None)",
+    "        .delete_one(doc! { \"name\": &problem_name }, None)", ["C17"])
+mut("store-plaintext-on-update", "server/src/user.rs",
+    "                user.password = hashed_pw;\n\n                let result = user_coll\n                    .replace_one(",
+    "                let _ = hashed_pw;\n\n                let result = user_coll\n                    .replace_one(", ["C17"])
+mut("account-delete-keeps-problems", "server/src/user.rs",
+    "                    .delete_many(doc! { \"username\": &username }, None)",
+    "                    .delete_many(doc! { \"username\": &username, \"name\": \"\" }, None)", ["C17"])
+mut("login-without-verify", "server/src/user.rs",
+    "            if pw_valid {", "            if pw_valid || pw.len() > 3 {", ["C17"])
+mut("fixed-salt", "server/src/user.rs",
+    "    let salt = SaltString::generate(&mut OsRng);\n    let hashed_pw = Argon2::default()",
+    "    let salt = SaltString::from_b64(\"c29tZXNhbHRzb21lc2FsdA\").unwrap();\n    let hashed_pw = Argon2::default()", ["C17"])
+# ---------------------------------------------------------------- C18
+mut("revert-D6", "lib/src/nogoods.rs",
+    "                if ng.is_contradicting(acc) {", "                if ng.is_violating(acc) {", ["C18"])
+mut("conclude-own-polarity", "lib/src/nogoods.rs",
+    "            Some((pos as usize, !self.value.contains(pos)))\n        } else {",
+    "            Some((pos as usize, self.value.contains(pos)))\n        } else {", ["C18", "C05"])
+mut("bucket-filter-strict", "lib/src/nogoods.rs",
+    "            .filter(|(len, _vec)| *len <= nogood.len())\n            .filter_map(",
+    "            .filter(|(len, _vec)| *len < nogood.len())\n            .filter_map(", ["C18"])
+# ---------------------------------------------------------------- C19
+mut("send-on-unique-hit", "lib/src/obdd.rs",
+    "            match self.cache.get(&node) {\n                Some(t) => *t,",
+    "            match self.cache.get(&node) {\n                Some(t) => {\n                    #[cfg(feature = \"frontend\")]\n                    if let Some(send) = &self.sender { if t.value() % 5 == 4 { let _ = send.send(node); } }\n                    *t\n                }", ["C19"])
+mut("relay-does-not-forward", "lib/src/obdd/frontend.rs",
+    "                        if let Some(send) = &self.sender {\n                            match send.send(node) {",
+    "                        if let Some(send) = self.sender.as_ref().filter(|_| self.nodes.len() % 4 != 0) {\n                            match send.send(node) {", ["C19"])
+mut("recv-stops-one-late", "lib/src/obdd/frontend.rs",
+    "                        if new_term == term {", "                        if new_term.value() == term.value() + 1 {", ["C19"])
+# ---------------------------------------------------------------- C20
+mut("two-valued-find-from-1", "lib/src/datatypes/adf.rs",
+    "                    .enumerate()\n                    .find(|(_, &idx)| current[idx] == Term::BOT)",
+    "                    .enumerate()\n                    .skip(if self.indexes.len() > 3 { 1 } else { 0 })\n                    .find(|(_, &idx)| current[idx] == Term::BOT)", ["C20"])
+mut("three-valued-reset-to-1", "lib/src/datatypes/adf.rs",
+    "            for value in vector[0..cur].iter_mut() {\n                *value = 2;",
+    "            for value in vector[0..cur].iter_mut() {\n                *value = if cur > 2 { 1 } else { 2 };", ["C20", "C02"])
 
 
 def sh(cmd, **kw):
